@@ -1,13 +1,13 @@
 #!/bin/bash
 # tools/eval_own.sh [seed dirs...] : confirms each seed (suite with the change, demo with / without it) in an
 # isolated scratch worktree and runs the quick check of the property the seed was written against (plus any
-# extra check ids given in $EXTRA). Writes <seed>/eval.txt. Up to $JOBS seeds in parallel.
+# extra check ids given in $EXTRA). Writes <seed>/eval_own.txt. Up to $JOBS seeds in parallel.
 cd /verif
 SEEDS="$@"; [ -z "$SEEDS" ] && SEEDS=$(ls -d /verif/seeded/*/ | sed 's#/$##')
 JOBS=${JOBS:-4}
 for d in $SEEDS; do
   own=$(python3 -c "import json,sys; print(json.load(open('$d/meta.json'))['property'])")
-  ( /verif/tools/eval_seed.sh $d $own $EXTRA > $d/eval.log 2>&1; grep '^RESULT' $d/eval.log > $d/eval.txt; rm -f $d/eval.log; cat $d/eval.txt ) &
+  ( /verif/tools/eval_seed.sh $d $own $EXTRA > $d/eval.log 2>&1; grep "^RESULT" $d/eval.log > $d/eval_own.txt; rm -f $d/eval.log; cat $d/eval_own.txt ) &
   while [ $(jobs -r | wc -l) -ge $JOBS ]; do sleep 2; done
 done
 wait
